@@ -6,7 +6,7 @@
 //   t <round> <thread> <op> ..  top-level script of an external thread:  W<k> | X<a>:<u> | E<a>:<u> | +<id>:<L> | -<id>
 //   u <id> <op> ...           unit (runs inside an arena):
 //        W<k>                 work
-//        X<a>:<u>             task_arena a .execute(unit u)        (only to arenas with a larger index than the current one: no wait cycles)
+//        X<a>:<u>             task_arena a .execute(unit u)        (the current arena, or one with a larger index: no wait cycles)
 //        E<a>:<u>             task_arena a .enqueue(unit u)
 //        I<u>                 this_task_arena::isolate(unit u)
 //        P<n>:<k>:<part>      parallel_for over n one-index bodies of k work (part 0 simple, 1 auto, 2 static = mailed)
@@ -35,12 +35,13 @@ static int gen_unit(GenSt& g, int arena, int depth) {
     std::string o; int nops = g.s.range(1, 3), na = (int)g.ar.size();
     for (int k = 0; k < nops; k++) {
         bool sub = depth < 3 && g.budget > 0;
-        uint32_t c = g.s.weighted({ 3, 3, sub ? 2u : 0u, sub ? 2u : 0u, (sub && arena + 1 < na) ? 2u : 0u, sub ? 1u : 0u });
+        uint32_t c = g.s.weighted({ 3, 3, sub ? 2u : 0u, sub ? 2u : 0u, sub ? 2u : 0u, sub ? 1u : 0u });
         if (c == 0) o += " W" + std::to_string(g.s.range(1, 6));
         else if (c == 1) { static const int ns[] = { 2, 3, 5, 8 }; o += " P" + std::to_string(ns[g.s.choose(4)]) + ":" + std::to_string(g.s.range(1, 4)) + ":" + std::to_string((int)g.s.weighted({ 4, 1, 2 })); }
         else if (c == 2) { int n = 1 + (int)g.s.weighted({ 2, 3, 1 }); o += " G"; for (int i = 0; i < n && (i == 0 || g.budget > 0); i++) o += (i ? "," : "") + gen_sub(g, arena, depth + 1); }
         else if (c == 3) o += " I" + gen_sub(g, arena, depth + 1);
-        else if (c == 4) { int a = arena + 1 + (int)g.s.choose((uint32_t)(na - arena - 1)); o += " X" + std::to_string(a) + ":" + gen_sub(g, a, depth + 1); }
+        else if (c == 4) { int a = (arena + 1 >= na || g.s.coin(3)) ? arena : arena + 1 + (int)g.s.choose((uint32_t)(na - arena - 1));     // the own arena: execute() runs the functor in place, and the isolation of the caller must be back afterwards
+            o += " X" + std::to_string(a) + ":" + gen_sub(g, a, depth + 1); }
         else {
             int a = (int)g.s.choose((uint32_t)na), tries = 0; while (!can_enqueue(g.ar[(size_t)a]) && tries++ < na) a = (a + 1) % na;
             if (can_enqueue(g.ar[(size_t)a])) o += " E" + std::to_string(a) + ":" + gen_sub(g, a, depth + 1); else o += " W1";
@@ -119,7 +120,7 @@ struct Obs;
 struct Arena { int mc, res, pri; tbb::task_arena* ta = nullptr; Obs* obs = nullptr; std::vector<Inflight> in; std::map<int, int> obs_cnt, obs_idx; std::map<int, int> slot_last; long entries = 0, exits = 0; int max_in = 0; bool enq_seen = false; /* enqueue, or an execute whose functor was delegated, into this arena since the last quiescent point */ int x_pending = 0; /* execute() calls into this arena whose functor has not started */ };
 static std::vector<Arena> AR; static std::vector<Unit> U;
 static std::map<int, tbb::global_control*> GC; static std::map<int, int> GCV; static int L0 = 2;
-static int win_max = 1; static bool enq_seen = false, g_witness = false; static int x_pending = 0;   // execute() calls whose functor has not started: may be delegated = enqueued
+static int win_max = 1; static bool enq_seen = false, g_witness = false; static int x_pending = 0; static long n_x_inplace_certain = 0, n_x_wrongly_certain = 0;   // execute() calls whose functor has not started: may be delegated = enqueued
 static long next_tag = 1;
 struct TState { int arena = -1; std::vector<long> tags; std::vector<int> xarenas; /* arenas this thread is inside through its own execute() calls */ };
 static thread_local TState ts;
@@ -237,11 +238,17 @@ static void run_ops(const std::vector<Op>& ops) {
         case 'X': {
             // A full arena turns execute() into an enqueued delegate (mandatory concurrency) -- and the caller may still end up running that functor itself
             // (it enters when a slot frees), so a delegation cannot be recognised from outside: every execute() counts as possibly enqueued work.
-            int u = op.b, me = vs_self(); submit(u, op.a, 0); x_pending++; enq_seen = true; AR[(size_t)op.a].x_pending++; AR[(size_t)op.a].enq_seen = true;
+            // Exception: while no worker can be anywhere (limit 1 since the last quiescent point, nothing enqueued or possibly delegated so far) and the
+            // scenario has no more external threads than the arena has slots, the arena cannot be full: this execute() certainly runs in place.
+            int u = op.b, me = vs_self(); submit(u, op.a, 0);
+            bool may_delegate = win_max > 1 || enq_seen || g_ext > nslots(AR[(size_t)op.a]);
+            if (may_delegate) { x_pending++; enq_seen = true; AR[(size_t)op.a].x_pending++; AR[(size_t)op.a].enq_seen = true; } else n_x_inplace_certain++;
             int xa = op.a;
             ts.xarenas.push_back(xa);     // also while it waits for a delegated functor the caller sits in the arena as an external thread
             ts.tags.push_back(0);         // ... and execute() drops the caller's isolation for its whole duration (nested_arena_context)
-            { int xa = op.a; AR[(size_t)op.a].ta->execute([u, me, xa] { bool same = vs_self() == me; x_pending--; AR[(size_t)xa].x_pending--; if (!same) n_delegated++; run_unit_body(u, same); }); }
+            { int xa = op.a; AR[(size_t)op.a].ta->execute([u, me, xa, may_delegate] { bool same = vs_self() == me; if (may_delegate) { x_pending--; AR[(size_t)xa].x_pending--; } if (!same) n_delegated++;
+                if (!same && !may_delegate) { enq_seen = true; AR[(size_t)xa].enq_seen = true; n_x_wrongly_certain++; }     // delegated after all: then it was enqueued work (keeps the oracle sound if the reasoning above misses a case)
+                run_unit_body(u, same); }); }
             ts.tags.pop_back(); ts.xarenas.pop_back();
             if (U[(size_t)u].finished != 1) vs_violation("EXECUTE-RETURNED-EARLY", "task_arena::execute returned but unit %d finished %d times", u, U[(size_t)u].finished);
             break; }
@@ -400,7 +407,7 @@ void h_run(Case& c) {
     vs_stat_add("n_units", nsub); vs_stat_add("n_bodies", n_bodies); vs_stat_add("n_worker_bodies", n_worker_bodies); vs_stat_add("n_delegated", n_delegated); vs_stat_add("n_extra_worker", n_extra_worker);
     vs_stat_add("n_iso_wait_exec", n_iso_wait_exec); vs_stat_add("n_mid_limit", n_mid_limit); vs_stat_add("n_slot_reuse", n_slot_reuse); vs_stat_add("n_observer_entries", entries); vs_stat_add("n_excluded", n_excluded + kvl(c.lines[0], "clamped", 0));
     vs_stat_max("max_in_arena", max_in); vs_stat_max("max_workers", max_workers_seen);
-    if (n_worker_bodies) vs_stat_flag("worker_in_arena"); if (n_delegated) vs_stat_flag("delegated_execute"); if (n_extra_worker) vs_stat_flag("extra_worker_slot"); if (n_iso_wait_exec) vs_stat_flag("body_started_in_isolated_wait");
+    if (n_x_inplace_certain) vs_stat_flag("execute_certainly_in_place_under_limit_1"); if (n_x_wrongly_certain) vs_stat_flag("execute_delegated_although_arena_not_full"); if (n_worker_bodies) vs_stat_flag("worker_in_arena"); if (n_delegated) vs_stat_flag("delegated_execute"); if (n_extra_worker) vs_stat_flag("extra_worker_slot"); if (n_iso_wait_exec) vs_stat_flag("body_started_in_isolated_wait");
     if (n_mid_limit) vs_stat_flag("limit_changed_while_running"); if (n_slot_reuse) vs_stat_flag("slot_reused_by_other_thread"); if (n_nested_arena) vs_stat_flag("nested_arena"); if (n_budget_tight) vs_stat_flag("worker_budget_reached");
     if (n_excluded) vs_stat_flag("excluded_external_in_extra_slot"); if (n_ext_nonreserved) vs_stat_flag("external_in_nonreserved_slot");
     vs_stat_add("nt", (max_in >= 2 && entries > 0) ? 1 : 0);
